@@ -89,6 +89,8 @@ type TaskSpec struct {
 	Lines   []string   `json:"lines,omitempty"`
 	Chunks  []int      `json:"chunks,omitempty"`
 	EOFWith bool       `json:"eof_with,omitempty"` // last chunk returns (n, io.EOF)
+	FailAt  int        `json:"fail_at,omitempty"`  // the reader fails with an I/O error after this many bytes (C08 reader entry)
+	Pad     []int      `json:"pad,omitempty"`      // [line index, length]: that certificate line is stretched with blanks to the length
 	Cert    bool       `json:"cert,omitempty"`
 	Cap     int        `json:"cap,omitempty"`
 	Delays  []int64    `json:"delays,omitempty"`
